@@ -230,7 +230,8 @@ def match_tables(g, tb, dg, dump=None):
     names.setdefault('<error_recovery_token>', []).append(('e',))
     names.setdefault('<eof>', []).append(('t', g.EOF))
     names.setdefault('##', []).append(('root',))
-    if any(len(v) > 1 for v in names.values()):
+    if any(len(v) > 1 for v in names.values()) or '.' in names:
+        # a term and a nonterminal of one name, or a term named like the position marker of the printed items: the text cannot be read back
         return None, ['ambiguous symbol names; table comparison skipped']
     def item_text(it):
         ri, dot, la = it
